@@ -26,6 +26,9 @@ mod utils;
 pub mod verify;
 
 pub use chain_controller::ChainController;
+/// verification-harness hook (feature `verif-hooks`): the orphan pool type lives in a private module.
+#[cfg(feature = "verif-hooks")]
+pub use utils::orphan_block_pool::OrphanBlockPool;
 use ckb_logger::{error, info};
 use ckb_store::{ChainDB, ChainStore};
 use ckb_types::{BlockNumberAndHash, H256};
